@@ -34,6 +34,67 @@ C17_MONITORS = {"convert-lost-referrer", "convert-extra-referrer", "convert-lost
 
 REQUESTS = ("INGEST", "REOPEN", "CRASH")
 
+# fixed witnesses of the confirmed findings (shrunk replays of the first runs): replayed on every run, so that a tree
+# without the repair is reported at once and deterministically
+WITNESSES = {
+    "F21-stale-index-dir": [
+        "NEW",
+        "MAN m1 subj=S1 mt=ocim cfgmt=cfg at= ann= len=555",
+        "IDX m1/ocim/9/cfg/",
+        "TOP dig=I(m1/ocim/9/cfg/) mt=ocii tag=fbS1 subj= size=0",
+        "INGEST store=dir",
+    ],
+    "F23-valid-then-stale": [
+        "NEW",
+        "MAN m1 subj=S1 mt=ocim cfgmt=cfg at= ann= len=555",
+        "MAN m2 subj=S1 mt=ocim cfgmt=cfg at= ann= len=555",
+        "IDX m1/ocim/555/cfg/",
+        "TOP dig=I(m1/ocim/555/cfg/) mt=ocii tag=fbS1 subj= size=0",
+        "IDX m2/ocim/9/cfg/",
+        "TOP dig=I(m2/ocim/9/cfg/) mt=ocii tag=fbS9 subj= size=0",
+        "INGEST store=mem",
+        "INGEST store=dir",
+    ],
+    "F23-two-valid-one-subject": [
+        "NEW",
+        "MAN m1 subj=S1 mt=ocim cfgmt=cfg at= ann= len=555",
+        "MAN m2 subj=S1 mt=ocim cfgmt=cfg at= ann= len=555",
+        "IDX m1/ocim/555/cfg/",
+        "TOP dig=I(m1/ocim/555/cfg/) mt=ocii tag=fbS1 subj= size=0",
+        "IDX m2/ocim/555/cfg/",
+        "TOP dig=I(m2/ocim/555/cfg/) mt=ocii tag=fbS9 subj= size=0",
+        "INGEST store=mem",
+        "INGEST store=dir",
+    ],
+    "F30-regenerated-equals-old-response": [
+        "NEW",
+        "MAN m1 subj=S1 mt=ocim cfgmt=cfg at= ann= len=555",
+        "IDX m1/ocim/555/cfg/",
+        "TOP dig=I(m1/ocim/555/cfg/) mt=ocii tag= subj=S1 size=0",
+        "IDX m1/ocim/9/cfg/",
+        "TOP dig=I(m1/ocim/9/cfg/) mt=ocii tag=fbS1 subj= size=0",
+        "INGEST store=dir",
+        "INGEST store=mem",
+    ],
+    "F30-interrupted-then-repeated": [
+        "NEW",
+        "MAN m1 subj=S1 mt=ocim cfgmt=cfg at= ann= len=555",
+        "IDX m1/ocim/9/cfg/",
+        "TOP dig=I(m1/ocim/9/cfg/) mt=ocii tag=fbS1 subj= size=0",
+        "CRASH store=dir k=1",
+    ],
+    "F33-children-after-restart": [
+        "NEW",
+        "MAN m4 subj= mt=ocim cfgmt=cfg at= ann= len=394",
+        "MAN m5 subj=S2 mt=ocii cfgmt=none at= ann= len=401 kids=m4/ocim/394//",
+        "IDX m5/dockm/399//",
+        "TOP dig=I(m5/dockm/399//) mt=ocii tag=fbS2 subj= size=0",
+        "TOP dig=I(m5/dockm/399//) mt=ocii tag=t3 subj= size=0",
+        "REOPEN store=dir",
+    ],
+}
+
+
 
 def _coverage(o, prof, label):
     """branch tags of the conversion, summed over the INGEST requests of one run (taken from the model's answers,
@@ -89,6 +150,25 @@ def _report_each_monitor(o, prof, label, limit=4):
                      "replay_cmd": "bin/check %s --replay <this file>" % o.prop})
 
 
+def _witnesses(o, prof):
+    """replay the fixed witnesses; a monitor hit or a disagreement with the model is a violation with that replay"""
+    ok = True
+    for name, ops in WITNESSES.items():
+        im, mo, mn = prof.replay(list(ops), tag="witness")
+        hits = [m for m in mon_parse(mn or []) if m[1] in C17_MONITORS]
+        diffs = core.first_diffs(prof.answered(ops), im or [], mo or [], prof.view, limit=1) if im is not None else [(0, "", "", "")]
+        o.cov["evaluations"] += len(ops)
+        if hits or diffs:
+            ok = False
+            what = ("witness %s: monitor %s fails on the implementation: %s" % (name, hits[0][1], hits[0][2][:300])) if hits else \
+                   ("witness %s: model and implementation disagree" % name)
+            o.violation(what, {"kind": "monitor" if hits else "correspondence", "profile": "ingest-witness", "monitor": hits[0][1] if hits else None,
+                               "detail": hits[0][2] if hits else None, "ops": list(ops), "implementation": im, "model": mo, "monitors": mn,
+                               "replay_cmd": "bin/check %s --replay <this file>" % o.prop}, no_input=not hits)
+    o.notes["witnesses_replayed"] = sorted(WITNESSES)
+    return ok
+
+
 def _run(o, prof, mode, params, label):
     before = len(o.violations)
     r = check_profile(o, prof, mode, params, label, C17_MONITORS, nontrivial=lambda a, b: a.split(" ", 1)[0] in REQUESTS)
@@ -99,6 +179,7 @@ def _run(o, prof, mode, params, label):
 
 
 def check_C17(o, tier):
+    os.environ["VERIF_COV"] = "1"   # the driver appends its branch coverage to the INGEST answers
     o.add_audit(core.audit("C17", tier == "thorough"))
     prof = ingest_profile(o)
     if prof is None:
@@ -113,6 +194,9 @@ def check_C17(o, tier):
                      "Every observation (index entries, children, per-subject referrers, tags, blobs, index.json on disk) is "
                      "compared with Upd.ingest, which is also run with the reverse map order; distinct_nontrivial counts "
                      "distinct (request, observation) pairs of the open requests")
+    if not _witnesses(o, prof):
+        prof.cleanup()
+        return
     # a small run first: on a tree where the conversion hangs or fails this reports quickly
     if not _run(o, prof, "gen", {"VERIF_SEED": o.seed + 1000, "VERIF_N": 40}, "ingest-smoke"):
         prof.cleanup()
